@@ -139,6 +139,7 @@ def _nodes(tree):
         seen.add(id(b))
         leaves.append(b)
         b = b._next
+    walk = None     # (break the closure cycle: see sim/walker.py)
     return interior, leaves
 
 
